@@ -165,6 +165,16 @@ fn run_case(c: &Case, tier: Tier) -> Chk<Pass> {
         PRing::F2H => (lib!(extract(&KhComplex::<PH<FF2>>::new(&l, &PH::variable(), &PH::zero(), reduced))), true),
     };
     let pos_entry = check_complex(&ext, graded, &what)?;
+    // constants: the builder's elimination order follows a per-instance hash order, so the same input is built again (cheap)
+    if !poly { for rep in 2..=3 {
+        let e2 = match c.ring {
+            PRing::Z => lib!(extract(&KhComplex::<BigInt>::new(&l, &big(h), &big(t), reduced))),
+            PRing::Q => lib!(extract(&KhComplex::<Ratio<i64>>::new(&l, &Ratio::from(h as i64), &Ratio::from(t as i64), reduced))),
+            PRing::F2 => lib!(extract(&KhComplex::<FF2>::new(&l, &FF2::from(h as i64), &FF2::from(t as i64), reduced))),
+            _ => lib!(extract(&KhComplex::<FF<3>>::new(&l, &FF::<3>::new(h as i32), &FF::<3>::new(t as i32), reduced))),
+        };
+        check_complex(&e2, graded, &format!("{what} [build {rep} of the same input]"))?;
+    } }
     // the reduced construction is only defined for t = 0; if the library nevertheless returns something for t != 0 it must be a complex
     if c.reduced && !t_zero && !poly && !dg.x.is_empty() {
         let r = with_threads(threads, || guard(|| match c.ring {
@@ -201,14 +211,14 @@ impl Prop for C05 {
     type Case = Case;
     const ID: &'static str = "C05";
     fn rule() -> String {
-        "case = (diagram with <= 8 (10) crossings as in C01; ring in {Z, Q, F2, F3 with constants (h,t) in [-3,3]^2; Z[H] (h=H,t=0), Z[T] (h=0,t=T), Z[H,T], Q[H], F2[H]}; reduced where t = 0; evaluation point (a,b) in [-4,4]^2; threads). \
+        "case = (diagram with <= 8 (10) crossings as in C01; ring in {Z, Q, F2, F3 with constants (h,t) in [-3,3]^2 (built three times: the elimination order varies per instance); Z[H] (h=H,t=0), Z[T] (h=0,t=T), Z[H,T], Q[H], F2[H]}; reduced where t = 0; evaluation point (a,b) in [-4,4]^2; threads). \
          from KhComplex::new(..): d_matrix(i) has shape rank(C^i+1) x rank(C^i), every generator of C^i has homological degree i, d_i+1 d_i = 0 with the harness's own polynomial arithmetic on the extracted entries, \
          every monomial c H^a T^b of an entry y <- x satisfies q(y) - 2a - 4b = q(x) (constants: when h = t = 0); \
          the polynomial complex evaluated at (a,b) and the complex built directly with (a,b) have the same homology fingerprint (free ranks per degree and 2,3,5-primary torsion exponents by the harness's own elimination; ranks over Q / F2 for Q[H], F2[H]). \
          non-trivial = a polynomial ring with a differential entry of positive degree, or a specialisation point with non-zero coordinates".into()
     }
     fn strategy(tier: Tier) -> BoxedStrategy<Case> {
-        let ring = prop_oneof![2 => Just(PRing::Z), 1 => Just(PRing::Q), 1 => Just(PRing::F2), 1 => Just(PRing::F3), 3 => Just(PRing::ZH), 2 => Just(PRing::ZT), 4 => Just(PRing::ZHT), 2 => Just(PRing::QH), 2 => Just(PRing::F2H)];
+        let ring = prop_oneof![3 => Just(PRing::Z), 1 => Just(PRing::Q), 1 => Just(PRing::F2), 2 => Just(PRing::F3), 3 => Just(PRing::ZH), 2 => Just(PRing::ZT), 4 => Just(PRing::ZHT), 2 => Just(PRing::QH), 2 => Just(PRing::F2H)];
         ring.prop_flat_map(move |ring| {
             let poly = matches!(ring, PRing::ZH | PRing::ZT | PRing::ZHT | PRing::QH | PRing::F2H);
             let maxc = if poly { tier.pick(7, 9) } else { tier.pick(10, 11) };
